@@ -367,7 +367,9 @@ func (m *matcher) findMatches(known *knownValue) {
 			for i, tok := range m.unknown.Tokens {
 				if tok.Offset == a[0] {
 					start = i
-				} else if tok.Offset >= a[len(a)-1]-len(tok.Text) {
+				}
+				// Not "else if": a one-token match starts and ends in the same token.
+				if tok.Offset >= a[len(a)-1]-len(tok.Text) {
 					end = i
 					break
 				}
